@@ -107,10 +107,12 @@ func c15build(k c15case) (*vE2ESpec, *int64) {
 	if k.delay != "" {
 		sc.Args = append(sc.Args, "--exit-delay", k.delay)
 	}
-	sc.Horizon = 5000000
 	injT := new(int64)
 	*injT = -1
 	per := int64(k.rate.win) / k.rate.n
+	// the step horizon tells a busy loop from a long scan: an idle receiver legitimately wakes up ten times
+	// per second of virtual time (its poll timeout), so the allowance grows with the scan's virtual duration
+	sc.Horizon = 5000000 + int(int64(k.tg.n)*per/int64(100*time.Millisecond))*16
 	if k.stall > 0 {
 		st := k.stall
 		if k.cmd.kind == "app" {
